@@ -72,7 +72,7 @@ def run_case(case, rec):
     moved = any(abs(m - t) > 0.25 * t for m in mu)
     rec.case(case, nontrivial=moved or len(set(x)) > 1)
     obj = nn.build(cfg)
-    xa = np.array(x, dtype=float)
+    xa = nn.to_array(x, cfg)
     lab = nn.label(cfg)
     n = len(x)
     ok_idx = [j for j in range(n) if 0 < mu[j] <= u]
